@@ -77,7 +77,25 @@ func H_C02(tbl, router, stage int) {
 		// also left open: URLs the ServeMux itself rewrites (empty, "." and ".." segments are redirected to the clean URL)
 		muxClean := vAnd(strings.HasPrefix(q.path, "/"), vAnd(!strings.Contains(q.path, "//"), vAnd(!strings.Contains(q.path, "/./"), vAnd(!strings.Contains(q.path, "/../"),
 			vAnd(!strings.HasSuffix(q.path, "/."), !strings.HasSuffix(q.path, "/.."))))))
-		if muxClean && !(strings.HasSuffix(root, "/") && q.path == strings.TrimRight(root, "/")) {
+		// and: the URL that is the fixed prefix of some root path minus its trailing slash, when no root path has
+		// exactly that URL as its fixed prefix - the ServeMux redirects it to the subtree pattern (this covers the
+		// root path written with a trailing slash as well as /a in front of a root path /a/{v})
+		redirected := false
+		exact := false
+		for _, sv := range h.table.services {
+			fp := sv.root
+			if i := strings.Index(fp, "{"); i >= 0 {
+				fp = fp[:strings.LastIndex(fp[:i], "/")+1]
+			}
+			if strings.HasSuffix(fp, "/") && fp != "/" && q.path == strings.TrimRight(fp, "/") {
+				redirected = true
+			}
+			if fp == q.path {
+				exact = true
+			}
+		}
+		_ = root
+		if muxClean && !(redirected && !exact) {
 			o3 := h.runServe(c, q)
 			verifAssert(o3.invoked == o.invoked && o3.nInvoked == 1, "C02: the route that Dispatch runs is not run when the request comes through the container's ServeMux (ServeHTTP)")
 			verifCover("via-servemux")
